@@ -1,4 +1,5 @@
 SPECIFICATION Spec
+CONSTANTS Names = {"T", "Tabby_2"} Vers <- VersQuick SubjectPorts = {0, 7509} ServicePorts = {0, 430}
 CONSTANTS AsFoundJoin = FALSE AsFoundOrder = TRUE
 INVARIANT NeverWrongIdentity
 INVARIANT PromisedSucceeds
